@@ -7,6 +7,20 @@ HERE = os.path.dirname(os.path.dirname(os.path.abspath(__file__)))
 
 # id -> (category, technique, text, note, design_ref)
 CLAIMED = {
+    "C02": (
+        "exploration",
+        "exhaustive enumeration of decomposable operations x parameter lattice x dagger x ordered targets x compile targets, and of matrix-valued operations over finite structured matrix families, through the real Compiler.decompose, judged by the documented reference map",
+        "Xgate, Zgate, Pgate, Fouriergate, CXgate, CZgate, S2gate, MZgate on a 15-point lattice per parameter slot x dagger x every ordered target tuple of 2/3-mode registers x every compile target whose table decomposes them (1.0e4 cases); Interferometer under all seven meshes x drop_identity over all phased permutations, a BFS generator orbit, DFT and identity for k = 2..4 (1.6e4 cases); GaussianTransform over a symplectic orbit, active/passive, vacuum=True; Gaussian preparations (pure diagonal with both squeezing signs, rotated, thermal, general mixed, displaced); graph and bipartite-graph embeddings of every graph on <= 4 nodes. The decomposition, interpreted command by command, must equal the documented transformation (1e-8).",
+        "Real parameters on a lattice, matrices from finite families; sMZgate has no documented closed form and is judged through the meshes using it.",
+        "DESIGN.md section 4 (C02)",
+    ),
+    "C17": (
+        "model_checking",
+        "explicit BFS orbits of unitary / symplectic generator sets (states = matrices, canonical form = rounded entries) plus exhaustive entry-alphabet enumeration, every matrix pushed through the real decomposition routines and reconstructed with independent builders",
+        "BFS orbits of phase/beamsplitter generators (k <= 4, word length 4, 7e3 states) and of rotation/squeezing/beamsplitter/two-mode-squeeze generators, all signed/phased permutations, DFT, 1e-14-perturbed variants; all symmetric matrices over {0,1,-1,i,.5} for k <= 3 and over {0,1,i} for k = 4; all graphs on <= 4 (5) nodes with weights {1,i}; invalid inputs of 9 kinds. Every matrix goes through takagi, williamson, bloch_messiah, the eight meshes, graph_embed, bipartite_graph_embed; factors are rebuilt with own builders and must multiply back to the input (1e-9) with the promised structure; invalid inputs must raise.",
+        "11 recorded findings (takagi on complex degenerate spectra and what inherits it, bloch_messiah with several idle modes / nearly equal squeezers, one williamson LinAlgError). Continuum reached only through orbit elements.",
+        "DESIGN.md section 4 (C17)",
+    ),
     "C06": (
         "model_checking",
         "exhaustive enumeration of pre-measurement states x measurement variants with a choice-DFS over every answer of the owned random source (stateless search with replay), judged against a phase-space / truncated-Fock reference",
